@@ -1,30 +1,49 @@
 /-
 Data model of the reference library tables exported by harness/extract/reftables.py (C19).
-Core Lean only: doubles are exported exactly as (numerator, denominator) of their binary value,
-so that the kernel compares and orders them with `Nat` arithmetic only.
+Core Lean only. Every double is exported exactly: a non-negative double is `m / 2^e` and is packed
+as the natural number `m * 2^16 + e`; lists of doubles are packed as base-2^80 digits, so that a
+table row is a handful of numerals (fast to elaborate) and the kernel works with `Nat` only.
 -/
 namespace Uwg.RefLib
 
-/-- An exactly exported non-negative double: numerator and denominator. -/
+/-- An exactly exported non-negative double `m / 2^e`, as (mantissa, exponent). -/
 abbrev Dbl := Nat × Nat
+
+def unpackDbl (x : Nat) : Dbl := (x / 2 ^ 16, x % 2 ^ 16)
+
+/-- `n` little-endian digits of `2^width`. -/
+def digits (width : Nat) : Nat → Nat → List Nat
+  | 0, _ => []
+  | n + 1, code => code % 2 ^ width :: digits width n (code / 2 ^ width)
+
+def unpackDbls (n code : Nat) : List Dbl := (digits 80 n code).map unpackDbl
 
 structure ArchRow where
   wall : Nat
   roof : Nat
   mass : Nat
-  /-- fractions that must lie in [0, 1]: glazing ratio, SHGC, radiant/latent internal-heat
+  /-- packed fractions that must lie in [0, 1]: glazing ratio, SHGC, radiant/latent internal-heat
       fractions, heating efficiency, and albedo / emissivity / vegetation cover of wall, roof, mass -/
-  fracs : List Dbl
-  /-- quantities that must be positive: floor height, COP, window U-value, capacities, initial temp -/
-  pos : List Dbl
+  fracs : Nat
+  /-- packed quantities that must be positive: floor height, COP, window U-value, capacities,
+      initial temperature -/
+  pos : Nat
   /-- SHA-256 of the canonical serialisation of *every* attribute of the BEMDef and its SchDef -/
   digest : Nat
-  /-- shape of the seven schedules: for each, number of day types then the length of each row -/
-  shape : List Nat
+  /-- packed shape of the seven schedules (8-bit digits): for each, number of day types then the
+      length of each row -/
+  shape : Nat
 deriving DecidableEq, Repr
 
-def Dbl.pos (x : Dbl) : Bool := 0 < x.1 && 0 < x.2
-def Dbl.unit (x : Dbl) : Bool := 0 < x.2 && x.1 ≤ x.2
+def Dbl.pos (x : Dbl) : Bool := 0 < x.1
+def Dbl.unit (x : Dbl) : Bool := x.1 ≤ 2 ^ x.2
+
+/-- Layers (thickness, conductivity, heat capacity) of a packed construction `(nLayers, code)`. -/
+def layersOfCode (c : Nat × Nat) : List (Dbl × Dbl × Dbl) :=
+  let rec go : List Dbl → List (Dbl × Dbl × Dbl)
+    | d :: k :: h :: rest => (d, k, h) :: go rest
+    | _ => []
+  go (unpackDbls (3 * c.1) c.2)
 
 /-- A layered construction is usable by the conduction solver: at least two layers, positive
     thickness, conductivity and heat capacity. -/
@@ -32,13 +51,16 @@ def consOk (c : List (Dbl × Dbl × Dbl)) : Bool :=
   2 ≤ c.length && c.all (fun l => l.1.pos && l.2.1.pos && l.2.2.pos)
 
 /-- The expected schedule shape: seven schedules of 3 day types × 24 hours. -/
-def shapeOk (s : List Nat) : Bool := s == (List.replicate 7 [3, 24, 24, 24]).flatten
+def shapeOk (s : Nat) : Bool := digits 8 28 s == (List.replicate 7 [3, 24, 24, 24]).flatten && s < 2 ^ (8 * 28)
 
 /-- Physical well-formedness of one archetype (C19). -/
-def rowOk (cons : List (List (Dbl × Dbl × Dbl))) (r : ArchRow) : Bool :=
+def rowOk (nFracs nPos : Nat) (cons : List (Nat × Nat)) (r : ArchRow) : Bool :=
   (match cons[r.wall]?, cons[r.roof]?, cons[r.mass]? with
-   | some w, some ro, some m => consOk w && consOk ro && consOk m
+   | some w, some ro, some m =>
+     consOk (layersOfCode w) && (layersOfCode w).length == w.1 &&
+     consOk (layersOfCode ro) && (layersOfCode ro).length == ro.1 &&
+     consOk (layersOfCode m) && (layersOfCode m).length == m.1
    | _, _, _ => false) &&
-  r.fracs.all Dbl.unit && r.pos.all Dbl.pos && shapeOk r.shape
+  (unpackDbls nFracs r.fracs).all Dbl.unit && (unpackDbls nPos r.pos).all Dbl.pos && shapeOk r.shape
 
 end Uwg.RefLib
